@@ -518,7 +518,17 @@ def run(tier, replay=None):
   r = common.rng('c03')
   if replay:
     with open(replay) as f:
-      cases = [json.load(f)['case']]
+      rp = json.load(f)
+    if 'case' not in rp and 'program_text' in rp:
+      # a stream violation: the program, the predicate and the number of rows it must have
+      got = run_real((rp['program_text'], [rp['predicate']]))[rp['predicate']]
+      n = len(set(got[1])) if got[0] == 'ok' else None
+      print('replay: %s %s rows (as a set) %s, expected %s' % (rp['predicate'], got[0], n, rp.get('expected_rows')))
+      if n != rp.get('expected_rows'):
+        rep.violation(rp.get('key', 'replay'), dict(rp, observed=[got[0], n if n is not None else got[1]]))
+      rep.coverage.update({'evaluations': 1, 'distinct_nontrivial': 1, 'rule': 'replay of one recorded program'})
+      return rep.finish()
+    cases = [rp['case']]
   else:
     cases = cases_for(tier, r)
   jobs = [(program_text(c), preds_of(c)) for c in cases]
